@@ -51,6 +51,10 @@ def instances(tier, seed):
                     if form != "int" and len(ks) == 1 and ws != (1,):
                         continue
                     yield {"keys": [list(k) for k in ks], "weights": list(ws), "form": form, "t": t, "maxN": maxN}
+                    if form == "int" and len(ks) >= 2 and len(set(ws)) > 1:
+                        # the same distribution inserted in the opposite (non-sorted) order
+                        yield {"keys": [list(k) for k in reversed(ks)], "weights": list(reversed(ws)), "form": form,
+                               "t": t, "maxN": min(maxN, 2)}
 
 
 def weights_of(inst):
